@@ -13,6 +13,7 @@ func init() {
 		level: "other",
 		explanation: "Static necessary conditions of 'once closed, an archive filesystem serves nothing' and of the structural half of the zip round trip: (V1) every access of the backend (load of VFS.vfs) in package filesystem is dominated by the closed-resource guard and lies on the side where the guard returned nil; (V2) the closed flag and the wrapped closer are only touched under the resource's mutex, writes under the write lock; (V3) the guard answers with the 'failed condition' kind exactly when IsClosed() is true and guarded functions never turn the guard's error into success; (V4) the zip/tar filesystem constructors hand the opened archive file to the filesystem as the resource it closes, and VFS.Close closes it; (V5) Close marks the resource closed on every successful path and IsClosed reports that flag; (Z1) zip entry names are the walk paths relative to the source, directory entries end with '/', entries carry the file's modification time and the content copied is the opened source file's; (Z2) extraction restores times after the copy from the archive entry's info, and directory times after the loop on every successful path. Decided on SSA of the current sources; nothing is executed. Not decided: round-trip equality of trees, contents and times (value-level), behaviour of afero's zipfs/tarfs.",
 		run:   runC07,
+		thoroughConfigs: []string{"darwin/amd64", "windows/amd64"},
 		assumptions: []string{
 			"afero zipfs/tarfs refuse mutating calls themselves (the read-only wrapper is not load-bearing and therefore not checked)",
 			"no race between Close and a call in flight is considered",
@@ -553,11 +554,26 @@ func (c *Ctx) c07UnzipTimes() {
 				good, why = false, "the modification time restored is not the entry's ModTime()"
 			}
 		}
+		if good {
+			// no successful return once the destination file exists without the times having been restored
+			var open ssa.Instruction
+			allInstrs(f, func(in ssa.Instruction) {
+				if name, _, ok := fsMethodCall(in); ok && (name == "OpenFile" || name == "CreateFile") && open == nil {
+					open = in
+				}
+			})
+			if open != nil {
+				esc := pathAvoiding(open, func(in ssa.Instruction) bool { return in == ssa.Instruction(cht) }, func(in ssa.Instruction) bool { return isReturnOK(f, in) })
+				if esc != nil {
+					good, why = false, "the return at "+c.ipos(esc)+" can report success for an entry whose destination file was created but whose times were not restored (some entries keep the extraction time)"
+				}
+			}
+		}
 		pos := c.pos(f.Pos())
 		if cht != nil {
 			pos = c.ipos(cht)
 		}
-		c.check(good, "Z2", fname(f)+"/chtimes", pos, "Chtimes(entry times) after the copy", why)
+		c.check(good, "Z2", fname(f)+"/chtimes", pos, "Chtimes(entry times) after the copy, before every successful return", why)
 	}
 	g := c.fn(fsPkgRel, "(*VFS).unzip")
 	if g != nil {
